@@ -1,6 +1,7 @@
 import Pds.Proofs.BloomHist
 import Pds.Proofs.BloomRef
 import Pds.Props.C14
+import Pds.Props.C13
 /-!
 # C01 — filters never report a false negative (Bloom and HashSet clauses)
 
@@ -153,5 +154,67 @@ theorem cuckoo_union_contains_both (I : RngI R) (hI : RngOK I) (hash : List Nat 
   · right; rw [e2]; exact (Pds.Props.C14.query_iff hash ho y).mp hy
 
 end Cuckoo
+
+/-! ## Quotient filter clause (from the set refinement of C13) -/
+section QuotientFilter
+open Pds.Quotient
+variable {N : Nat}
+
+/-- Quotient filter: whenever an insert of `(a, r)` returned `Ok` (`true` or `false`) at some point
+of a history, the pair is reported present at the end of the history — later inserts, including
+ones rejected with `Full`, never remove it. -/
+theorem quotient_no_false_negative (hN : 0 < N) (pre post : List (Fin N × Nat)) (a : Fin N) (r : Nat)
+    (hok : (specStep (specFrom (∅ : Finset (Fin N × Nat)) pre).1 (a, r)).2 ≠ .full) :
+    ∃ t rs sr, runFrom (empty N) (pre ++ (a, r) :: post) = some (t, rs) ∧
+      scan t a r false = some sr ∧ sr.present = true := by
+  obtain ⟨t, hrun, hrep⟩ := Pds.Props.C13.history_refines hN (pre ++ (a, r) :: post)
+  obtain ⟨sr, hs, hp⟩ := Pds.Props.C13.scan_correct hrep a r false
+  refine ⟨t, _, sr, hrun, hs, hp.mpr ?_⟩
+  -- the specification set only grows, and contains (a, r) right after its insert
+  have grow : ∀ (h : List (Fin N × Nat)) (S : Finset (Fin N × Nat)), S ⊆ (specFrom S h).1 := by
+    intro h
+    induction h with
+    | nil => intro S; exact Finset.Subset.refl _
+    | cons x xs ih =>
+      intro S
+      refine Finset.Subset.trans ?_ (ih _)
+      unfold specStep
+      split
+      · exact Finset.Subset.refl _
+      · split
+        · exact Finset.Subset.refl _
+        · exact Finset.subset_insert _ _
+  have app : ∀ (h1 h2 : List (Fin N × Nat)) (S : Finset (Fin N × Nat)),
+      (specFrom S (h1 ++ h2)).1 = (specFrom (specFrom S h1).1 h2).1 := by
+    intro h1
+    induction h1 with
+    | nil => intro h2 S; rfl
+    | cons x xs ih => intro h2 S; simp only [List.cons_append, specFrom]; exact ih h2 _
+  rw [app]
+  apply grow post
+  show (a, r) ∈ (specStep _ (a, r)).1
+  revert hok
+  unfold specStep
+  split
+  · intro _; assumption
+  · split
+    · intro h; exact absurd rfl h
+    · intro _; exact Finset.mem_insert_self _ _
+
+/-- Quotient filter: after a successful `union`, every pair stored in either operand is reported
+present by the result. -/
+theorem quotient_union_contains_both {t o t' : St N} {S So : Finset (Fin N × Nat)}
+    (hr : Rep t S) (ho : Rep o So) {b : Bool} (hu : union t o = some (t', .ok b))
+    (a : Fin N) (r : Nat) (hmem : (a, r) ∈ S ∨ (a, r) ∈ So) :
+    ∃ sr, scan t' a r false = some sr ∧ sr.present = true := by
+  rcases Pds.Props.C13.union_correct hr ho with ⟨hfull, _⟩ | ⟨t'', hu', hrep, _, _⟩
+  · rw [hfull] at hu; cases hu
+  · rw [hu'] at hu
+    simp only [Option.some.injEq, Prod.mk.injEq] at hu
+    obtain ⟨rfl, _⟩ := hu
+    obtain ⟨sr, hs, hp⟩ := Pds.Props.C13.scan_correct hrep a r false
+    exact ⟨sr, hs, hp.mpr (Finset.mem_union.mpr hmem)⟩
+
+end QuotientFilter
 
 end Pds.Props.C01
